@@ -453,11 +453,13 @@ fn draw_text(
     max: usize,
 ) -> String {
     let nulok = item["nulok"] == true;
-    for _ in 0 .. 1000 {
-        let s = random_string_where(rng, min, max, |c| (c != '\0' || nulok) && !excl.contains(&c));
+    for t in 0 .. 1000usize {
+        // (a class of very short strings runs out of unique values in a large group: the minimum grows with the failures)
+        let grow = if item["uniq"].is_string() { (t / 6).min(max.saturating_sub(min)) } else { 0 };
+        let s = random_string_where(rng, min + grow, max, |c| (c != '\0' || nulok) && !excl.contains(&c));
         let s = if item["uniq"].is_string() && s.is_empty() && min == 0 && rng.gen_bool(0.8) {
             // unique keys: the empty key is legal but drawn rarely
-            random_string_where(rng, 1, max, |c| c != '\0' && !excl.contains(&c))
+            random_string_where(rng, 1 + grow, max.max(1 + grow), |c| c != '\0' && !excl.contains(&c))
         } else {
             s
         };
